@@ -138,6 +138,9 @@ macro_rules! with_make {
         }
     };
 }
+pub fn any_insert(cache: AnyCache, ty: Ty, id: &str, n: u64) -> String {
+    with_make!(ty, T, cache.get_or_insert::<T>(id, T::make(n)).read().show())
+}
 macro_rules! direct {
     ($front:expr, $c:ident, $body:expr) => {
         match $front {
@@ -513,6 +516,9 @@ pub fn gen_id(g: &mut SplitMix, u: &Universe, ty: Ty) -> String {
         _ => g.pick(&u.ids).clone(),
     }
 }
+/// Histories without reloads (C02) may let a load insert a placeholder under the very key being loaded (re-entrant
+/// insertion); scenarios with a convergence oracle may not (a value that embeds its own previous value has no fixpoint).
+pub static SELF_INSERT_OK: std::sync::atomic::AtomicBool = std::sync::atomic::AtomicBool::new(false);
 /// Recipe of the compound stored at `u.ids[owner]`: it may *load* recipe compounds only at ids of lower index
 /// (a load cycle is infinite recursion in the library by construction); look-ups with get_cached may point anywhere.
 pub fn gen_recipe(g: &mut SplitMix, u: &Universe, depth: u32, owner: usize) -> Vec<Ins> {
@@ -524,7 +530,7 @@ pub fn gen_ins(g: &mut SplitMix, u: &Universe, depth: u32, owner: usize) -> Ins 
     let choice = g.below(if depth > 0 { 16 } else { 12 });
     // loads of recipe compounds must be acyclic (a load cycle is infinite recursion by construction) and so must
     // look-ups be here: a value that embeds its own previous value has no fixpoint to converge to (cyclic look-ups are C08's subject)
-    let refers = matches!(choice, 0..=6) || choice >= 15;
+    let refers = matches!(choice, 0..=6 | 9) || choice >= 15;
     if refers && ty.kind() == Kind::Rec {
         if owner == 0 {
             ty = Ty::LA;
@@ -539,7 +545,20 @@ pub fn gen_ins(g: &mut SplitMix, u: &Universe, depth: u32, owner: usize) -> Ins 
         6 => Ins::Owned(ty, id),
         7 => Ins::Read(g.pick(&u.ids).clone(), g.pick(&["a", "b", "rc"]).to_string()),
         8 => Ins::ReadDir(g.pick(&u.dirs).clone()),
-        9 => Ins::Val(g.below(5)),
+        9 => {
+            if g.chance(1, 2) && insertable(ty) {
+                // a placeholder inserted from inside a load; one time in three under the id being loaded
+                let own = g.chance(1, 3) && SELF_INSERT_OK.load(std::sync::atomic::Ordering::Relaxed);
+                let target = if own { u.ids[owner].clone() } else { id };
+                if ty.kind() == Kind::Rec && !own && owner == 0 {
+                    Ins::Val(6)
+                } else {
+                    Ins::Insert(if ty.kind() == Kind::Rec { Ty::RA } else { ty }, target, 50 + g.below(5))
+                }
+            } else {
+                Ins::Val(g.below(5))
+            }
+        }
         10 => {
             if g.chance(1, 4) {
                 Ins::Fail
